@@ -58,6 +58,19 @@ for d in dirs:
     rows.append((d, kind, held, 'VIOLATION' if own and own[0] == 'VIOLATION' else (own[0] if own else 'silent'),
                  ', '.join('%s' % p for p in sorted(fired) if p != pid and fired[p][0] == 'VIOLATION'),
                  ', '.join(rules)))
+if only:
+    # partial run: merge the fresh rows into the rows already in DESIGN.md
+    _s = open(os.path.join(HERE, 'DESIGN.md')).read()
+    _a, _b = '<!-- SEED-MATRIX-BEGIN -->', '<!-- SEED-MATRIX-END -->'
+    _old = {}
+    for _l in _s[_s.index(_a):_s.index(_b)].splitlines():
+        if re.match(r'\| C\d\d-', _l):
+            _c = tuple(x.strip() for x in _l.strip().strip('|').split('|'))
+            if len(_c) == 6:
+                _old[_c[0]] = _c
+    for r in rows:
+        _old[r[0]] = r
+    rows = [_old[k] for k in sorted(_old)]
 out = ['| change | kind | own check when collected (held-out) | own check now | other checks firing now | rules |', '|---|---|---|---|---|---|']
 for r in rows:
     out.append('| %s | %s | %s | %s | %s | %s |' % r)
@@ -102,10 +115,10 @@ htext = ('Held-out detection when each change was collected (before any '
 dp = os.path.join(HERE, 'DESIGN.md')
 s = open(dp).read()
 ha, hb = '<!-- HELDOUT-BEGIN -->', '<!-- HELDOUT-END -->'
-if ha in s and not only:
+if ha in s:
     s = s[:s.index(ha) + len(ha)] + '\n' + htext + s[s.index(hb):]
 a, b = '<!-- SEED-MATRIX-BEGIN -->', '<!-- SEED-MATRIX-END -->'
-if a in s and not only:
+if a in s:
     s = s[:s.index(a) + len(a)] + '\n' + text + s[s.index(b):]
     open(dp, 'w').write(s)
 print(summary)
